@@ -62,6 +62,10 @@ def composed_examples(cls, count=8):
         base = [bytes(b) for b in seeds.seeds_for(cls)] + out
         for data in base[:6]:
             out = out + [variant for variant in ber_length_variants(data) if variant not in out]
+    if 'X509' in ref or ref.endswith(':SshHostPublicKeyVariant'):
+        from vf.gen import der, seeds  # pylint: disable=import-outside-toplevel
+        for data in [bytes(b) for b in seeds.seeds_for(cls) if 300 < len(b) <= 4096][:4]:
+            out = out + [variant for variant in der.certificate_variants(data) if variant not in out]
     if ref == 'cryptoparser.tls.record:SslRecord':
         out = out + [variant for data in out[:6] for variant in ssl2_three_byte_header_variants(data)]
     _CACHE[ref] = out
